@@ -102,6 +102,16 @@ class KWorld:
             rhs = self.app(self.cfg, self.c(b), self.term(1, [X] + ([Y] if ('evar', Y) in lhs[3] else [])), ('evar', X))
             srt = ('s', rng.choice(self.sorts)) if rng.random() < 0.8 else ('sv', 0)
             self.rules.append(('rewrites', srt, lhs, rhs))
+        if self.ctors and rng.random() < 0.5:
+            # family: two rules that share a non-ground sub-term T over the same Kore variables, which occur for the first
+            # time in a different order in the two rules (each rule has its own variable scope: T must be converted afresh)
+            f, ar = rng.choice(self.ctors)
+            X, Y = rng.sample(range(0, 9), 2)
+            T = self.app(f, *([('evar', X), ('evar', Y)][:ar]))
+            a, b, cc = (rng.choice(self.pcs) for _ in range(3))
+            srt = ('s', rng.choice(self.sorts))
+            self.rules.append(('rewrites', srt, self.app(self.cfg, self.c(a), ('evar', X), ('evar', Y)), self.app(self.cfg, self.c(b), T, ('evar', X))))
+            self.rules.append(('rewrites', srt, self.app(self.cfg, self.c(b), ('evar', Y), ('evar', X)), self.app(self.cfg, self.c(cc), T, ('evar', Y))))
 
     def c(self, n):
         return ('app', n, (), ())
